@@ -221,7 +221,7 @@ class Job:
     def __init__(self, name, src, entry, enforce=None, replace=(), loop_contracts=False, flags=(),
                  defines=(), timeout=600, mem_gb=12, expect="success", kind="proof", unwind=None,
                  checks=None, cover=False, note="", functions=(), includes=(), solver=(), object_bits=None,
-                 bounded=False, role="property"):
+                 bounded=False, role="property", cover_by_assert=False, stop_on_fail=False):
         self.name = name
         self.src = src
         self.entry = entry
@@ -244,6 +244,8 @@ class Job:
         self.object_bits = object_bits
         self.bounded = bounded
         self.role = role              # "property" -> a failed obligation is property-level; "aux"
+        self.cover_by_assert = cover_by_assert  # cover goals written as assert(!(c), "covergoal ..."): every one must FAIL
+        self.stop_on_fail = stop_on_fail and not cover_by_assert  # one SAT query; on failure only the first failed obligation is reported
         self.result = None
 
 
@@ -345,6 +347,22 @@ def run_job(job, workdir):
         cmd += ["--cover", "cover"]
     else:
         cmd += ["--trace"]
+    props_listed = None
+    if job.stop_on_fail and not job.cover:
+        # obligations are enumerated separately (the verdict run reports only a failing one)
+        lc = [c for c in cmd if c != "--trace"] + ["--show-properties"]
+        rc0, o0, e0, _ = run(lc, cwd=d, timeout=300, mem_gb=job.mem_gb)
+        try:
+            for ent in json.loads(o0):
+                if "properties" in ent:
+                    props_listed = ent["properties"]
+        except Exception:
+            props_listed = None
+        if not props_listed:
+            out["error"] = "could not enumerate obligations: " + (e0 or o0)[-500:]
+            out["secs"] = time.time() - t0
+            return out
+        cmd += ["--stop-on-fail"]
     out["checker_cmd"] = " ".join(cmd)
     rc, o, e, secs = run(cmd, cwd=d, timeout=job.timeout, mem_gb=job.mem_gb)
     with open(os.path.join(d, "cbmc.json"), "w") as f:
@@ -355,6 +373,29 @@ def run_job(job, workdir):
         out["status"] = "timeout"
         return out
     res = _parse_cbmc_json(o)
+    if res is not None and props_listed is not None:
+        # stop-on-fail run: synthesise the per-obligation table
+        failed_one = None
+        try:
+            for ent in json.loads(o):
+                if isinstance(ent, dict) and ent.get("status") == "failed" and "property" in ent:
+                    failed_one = ent
+        except Exception:
+            pass
+        if res["status"] == "success" and failed_one is None:
+            res["props"] = [{"property": p["name"], "description": p.get("description", ""), "status": "SUCCESS", "sourceLocation": p.get("sourceLocation", {})} for p in props_listed]
+        elif failed_one is not None:
+            res["props"] = []
+            for p in props_listed:
+                if p["name"] == failed_one["property"]:
+                    res["props"].append({"property": p["name"], "description": p.get("description", ""), "status": "FAILURE", "sourceLocation": p.get("sourceLocation", {}), "trace": failed_one.get("trace")})
+                else:
+                    res["props"].append({"property": p["name"], "description": p.get("description", ""), "status": "UNKNOWN(stop-on-fail)", "sourceLocation": p.get("sourceLocation", {})})
+            if not any(p["status"] == "FAILURE" for p in res["props"]):
+                res["props"].append({"property": failed_one["property"], "description": failed_one.get("description", ""), "status": "FAILURE", "sourceLocation": {}, "trace": failed_one.get("trace")})
+            out["stop_on_fail"] = True
+        else:
+            res = None
     if res is None:
         out["status"] = "error"
         out["error"] = "unparseable cbmc output (rc=%s): %s" % (rc, (e or o)[-1500:])
@@ -372,6 +413,15 @@ def run_job(job, workdir):
             out["error"] = "no cover goals: " + (e or "")[-500:] + " ".join(res["messages"][-3:])
         return out
     props = res["props"]
+    if job.cover_by_assert:
+        goals = [p for p in props if p.get("description", "").startswith("covergoal")]
+        out["obligations"] = len(goals)
+        out["discharged"] = sum(1 for g in goals if g["status"] == "FAILURE")
+        out["failed"] = [{"name": g["property"], "desc": g.get("description"), "class": "cover"} for g in goals if g["status"] != "FAILURE"]
+        out["status"] = "proved" if goals and not out["failed"] else ("failed" if goals else "error")
+        if not goals:
+            out["error"] = "no cover goals found"
+        return out
     if not props:
         out["error"] = "no obligations generated (rc=%s): %s" % (rc, " | ".join(res["messages"][-4:]))
         return out
@@ -384,6 +434,8 @@ def run_job(job, workdir):
         if p["status"] == "SUCCESS":
             classes[cls][1] += 1
             out["discharged"] += 1
+        elif p["status"].startswith("UNKNOWN"):
+            pass
         else:
             out["failed"].append({"name": p["property"], "desc": p.get("description", ""), "class": cls,
                                   "line": p.get("sourceLocation", {}).get("line"),
@@ -400,6 +452,9 @@ def run_job(job, workdir):
 
 def run_jobs(jobs, workdir, max_workers=None):
     os.makedirs(workdir, exist_ok=True)
+    only = os.environ.get("HEX_ONLY")  # development aid: run only the jobs whose name matches
+    if only:
+        jobs[:] = [j for j in jobs if re.search(only, j.name)]
     with concurrent.futures.ThreadPoolExecutor(max_workers=max_workers or min(NCPU, max(1, len(jobs)))) as ex:
         futs = {ex.submit(run_job, j, workdir): j for j in jobs}
         for f in concurrent.futures.as_completed(futs):
